@@ -232,6 +232,21 @@ pub fn pool() -> Vec<String> {
     ] {
         v.push(s.to_string());
     }
+    for s in [
+        // parser-stage warnings below a front matter (many of them over a history)
+        "---\ntitle: Soup\nservings: 2\n---\n\nAdd @salt{1%} and @pepper{2%} to the #pot{1%}.\n\nSimmer for ~x{10%min}(n) @ y.\n", "---\na: 1\n---\n= s = t\n>> k\n@a{1%} ~t{1%s}(n)\n",
+        // the same two units met in both orders
+        "Warm the @milk{1%cup} in a pan.\n\nWhisk in the rest of the @&milk{100%g}.\n", "Weigh the @milk{100%g} first.\n\nLater add another @&milk{1%cup}.\n", "@a{1%l} @&a{1%oz} @b{1%oz} @&b{1%l} @c{1%min} @&c{1%kg}",
+        // [unit-heavy]: marker word inside a comment, see the threaded rounds
+        "---\nprep time: 1 hour 20 minutes 30 seconds\ncook time: 2 hours 45 minutes 15 seconds\ntime: 3 h 10 m\n---\n[- [unit-heavy] -] Rest.\n",
+        ">> time: 1 d 2 h 3 min 4 s\n>> prep time: 90 minutes\n[- [unit-heavy] -] x",
+        "[- [unit-heavy] -] Roll the @dough{1%m} long and rest it ~{5%m}. Bake for 10 Min, then add the @&dough{2%min}.\n",
+        "[- [unit-heavy] -] Heat 2 L of water to 90 C for ~{3%H}, add 5 M of string and @salt{1%S} then @&salt{1%s}.",
+        "[- [unit-heavy] -] ~{10%minutes} ~{1%hour} ~{2%d} ~{30%sec} and 5 min, 2 h, 1 d of 3 hours.",
+        "---\ntime:\n  prep: 1 hour 5 minutes\n  cook: 2 hours 30 minutes\n---\n[- [unit-heavy] -] ~{5%m} and 10 m of @rope{2%m}.",
+    ] {
+        v.push(s.to_string());
+    }
     for s in ["Heat the #&pan{} first.", "Use the #&pot{} and the @&flour{} again.", "Add @&flour{} to the #&bowl{}.", ">> [mode]: steps\nUse #pan and @salt here.\n", ">> [duplicate]: ref\n#&lid{} then ~&rest{5%min}"] {
         v.push(s.to_string());
     }
@@ -356,6 +371,24 @@ fn sequential(ctx: &mut Ctx, pool: &[String], log: &mut Log, calls: usize) {
                 }
             }
         }
+        if k % 61 == 9 {
+            // a run of parses of one kind in a row, nothing else in between (a folder of recipes that all start with a front
+            // matter): what the first of them returns, the twelfth returns
+            let fm: Vec<usize> = pool.iter().enumerate().filter(|(_, t)| t.starts_with("---")).map(|(j, _)| j).collect();
+            if !fm.is_empty() {
+                let j = fm[r.below(fm.len())];
+                let mut seen: Vec<u64> = Vec::new();
+                for _ in 0..12 {
+                    if let Ok(img) = crate::core::guarded(|| image_of(parser, &pool[j])) {
+                        let h = hash64(img.as_bytes());
+                        log.record(j, ci, h);
+                        seen.push(h);
+                    }
+                }
+                ctx.count("runs_of_front_matter_recipes");
+                let _ = seen;
+            }
+        }
         if k % 5 == 2 {
             // the same buffer edited in place between two parses: same address, same length, other text. The result for the
             // edited text must be the one a copy of it at another address gets.
@@ -452,8 +485,16 @@ fn threaded(ctx: &mut Ctx, pool: &[String], log: &mut Log, nthreads: usize, ops:
         let barrier = Arc::new(Barrier::new(nthreads));
         let out: Arc<Mutex<Vec<(usize, usize, u64)>>> = Arc::new(Mutex::new(Vec::new()));
         let first: Arc<Mutex<Vec<usize>>> = Arc::new(Mutex::new(Vec::new()));
-        // few keys, maximum overlap
-        let keys: Vec<usize> = (0..8).map(|k| (k * 7 + round) % pool.len()).collect();
+        // few keys, maximum overlap; every third round on the inputs that keep the unit lookup busy from two sides (durations
+        // written with units in the metadata, units in timers / step text / references) — what one thread is in the middle of
+        // must not be visible to the lookups of another
+        let focus: Vec<usize> = pool.iter().enumerate().filter(|(_, t)| t.contains("[unit-heavy]")).map(|(i, _)| i).collect();
+        let keys: Vec<usize> = if round % 3 == 2 && focus.len() >= 4 {
+            ctx.count("thread_rounds_on_unit_heavy_inputs");
+            focus.clone()
+        } else {
+            (0..8).map(|k| (k * 7 + round) % pool.len()).collect()
+        };
         let pool_arc: Arc<Vec<String>> = Arc::new(pool.to_vec());
         let mut handles = Vec::new();
         for t in 0..nthreads {
